@@ -19,7 +19,16 @@ def build(repo, tier, seed):
     b["assumptions"].append("the step from the one-operation obligations (invariant established, preserved by every operation, good behaviour under the invariant) to every finite history "
                             "is the abstract induction lean/Histories.lean, checked by the Lean 4 kernel (group Histories:lean); that the obligations instantiate its hypotheses is by inspection")
     b["undecided"] += und + und2 + t_und + d_und
+
+    def witness(group, names, seed, inner=b["witness"]):
+        if "MemoryCache" in group or "Cached" in group or "fingerprint" in group:
+            from harness import cache_search
+            w = cache_search.search(seed, faulty=False, switches=False, memo=True, budget=100)
+            if w:
+                return w
+        return inner(group, names, seed)
+    b["witness"] = witness
     b["assumptions"] += ["INV (cache invariant) is preserved by every store: obligation Cached:L7:stores-the-memo-free-value; that INV then holds along every "
-                         "history is the standard invariant argument (not mechanised)",
+                         "history is lean/Histories.lean",
                          "graph-mutating operations (register, set_dispatch, add_effects, set_cache) between a store and its hit are outside the transparency statement (C07 covers registration)"]
     return b
